@@ -85,6 +85,7 @@ def run(prop, tier):
     import importlib.util
     spec = importlib.util.spec_from_file_location('prop_' + prop.lower(), ppath)
     pmod = importlib.util.module_from_spec(spec)
+    sys.modules['prop_' + prop.lower()] = pmod
     spec.loader.exec_module(pmod)
     extra = pmod.run(tier, seed)
 
@@ -201,8 +202,9 @@ def replay(path):
   if rep.get('prop_replay'):
     import importlib.util
     ppath = os.path.join(HERE, 'props', rep['property'].lower() + '.py')
-    spec = importlib.util.spec_from_file_location('prop', ppath)
+    spec = importlib.util.spec_from_file_location('prop_' + rep['property'].lower(), ppath)
     pmod = importlib.util.module_from_spec(spec)
+    sys.modules['prop_' + rep['property'].lower()] = pmod
     spec.loader.exec_module(pmod)
     ok = pmod.replay(rep['prop_replay'])
     print('replay     :', 'still fails' if not ok else 'passes now')
